@@ -2,6 +2,7 @@ import Dcg.Proofs.Resolver
 import Dcg.Proofs.ResolverMultidoc
 import Dcg.Proofs.ResolverWorklist
 import Dcg.Proofs.ResolverDedupe
+import Dcg.Proofs.ResolverWalk
 /-
 C06 — each named schema yields exactly one model and every reference lands on it.
 Only property theorems live here; helper lemmas are in Dcg/Proofs/Resolver.lean.
@@ -492,5 +493,53 @@ theorem resolveIn_not_idempotent_below_base :
   decide
 
 end basepath
+
+/-! ### the walk that hands `$ref`s to the loader (`JsonSchemaParser.parse_ref`) -/
+
+section Walk
+
+/-- `parse_ref` — the only place where a `$ref` is handed to `resolve_ref`, i.e. gets its external file loaded or its
+local pointer reserved — descends, in the source as it is now, into EVERY keyword under which a subschema can stand.
+Both lists are read from /repo on every run: `schemaFields` are the fields of `JsonSchemaObject` whose annotation
+mentions `JsonSchemaObject` (items, additionalProperties, patternProperties, oneOf, anyOf, allOf, properties),
+`parseRefDescends` the attributes of the walked object whose values reach the recursive call (through helper functions
+/ generators as well). A keyword missing from the walk (or a new schema-valued field the walk does not know) breaks this
+obligation: a reference below it is registered by the type builder but never loaded — no class, `A Parser can not
+resolve classes` — unless something else happens to load its target. -/
+theorem parse_ref_descends_into_every_schema_field :
+    schemaFields ≠ [] ∧ ∀ k ∈ schemaFields, k ∈ parseRefDescends := by decide
+
+/-- Model `Model.ResolverWalk.collect`: a walk that descends into the keywords `kws` hands over every reference written
+anywhere in a schema all of whose keywords are in `kws` — at every depth, under every combination of keywords. -/
+theorem walk_complete (kws : List (List Char)) (t : Dcg.Model.ResolverWalk.Sch) (h : ∀ k ∈ Dcg.Model.ResolverWalk.keywordsOf t, k ∈ kws) :
+    Dcg.Model.ResolverWalk.collect kws t = Dcg.Model.ResolverWalk.allRefs t := Dcg.Proofs.ResolverWalk.collect_complete kws t h
+
+/-- … and never anything that is not written in the schema. -/
+theorem walk_sound (kws : List (List Char)) (t : Dcg.Model.ResolverWalk.Sch) (r : Nat) (h : r ∈ Dcg.Model.ResolverWalk.collect kws t) : r ∈ Dcg.Model.ResolverWalk.allRefs t :=
+  Dcg.Proofs.ResolverWalk.collect_sound kws t r h
+
+/-- The hypothesis of `walk_complete` is needed keyword by keyword: a reference whose only way in leads through a keyword
+the walk does not know is not handed over (the mechanism of seeded change C06-g: `oneOf` missing from the walk). -/
+theorem walk_misses_below_unknown_keyword (kws : List (List Char)) (kw : List Char) (r : Nat) (h : kw ∉ kws) :
+    Dcg.Model.ResolverWalk.collect kws (.sub kw (.ref r .nil) .nil) = [] ∧ Dcg.Model.ResolverWalk.allRefs (.sub kw (.ref r .nil) .nil) = [r] :=
+  Dcg.Proofs.ResolverWalk.collect_misses kws kw r h
+
+/-- The walk of the source as it is now (`Dcg.Model.ResolverWalk.collect parseRefDescends`, compared with the real `parse_ref` on every run)
+hands over every reference of every schema built from the keywords of `JsonSchemaObject`. -/
+theorem parse_ref_walk_complete (t : Dcg.Model.ResolverWalk.Sch) (h : ∀ k ∈ Dcg.Model.ResolverWalk.keywordsOf t, k ∈ schemaFields) :
+    Dcg.Model.ResolverWalk.collect parseRefDescends t = Dcg.Model.ResolverWalk.allRefs t :=
+  walk_complete parseRefDescends t (fun k hk => parse_ref_descends_into_every_schema_field.2 k (h k hk))
+
+/-- non-vacuity: `{properties: {a: {oneOf: [{$ref: 0}, {items: {$ref: 1}}]}}, $ref: 2}` -/
+example : Dcg.Model.ResolverWalk.collect parseRefDescends
+    (.sub (L "properties") (.sub (L "oneOf") (.ref 0 .nil) (.sub (L "oneOf") (.sub (L "items") (.ref 1 .nil) .nil) .nil)) (.ref 2 .nil))
+    = [0, 1, 2] := by decide
+
+/-- `parse_id` (the walk that registers `$id` anchors) descends into the same keywords EXCEPT `oneOf` in the source as it
+is now: an anchor declared below `oneOf` is not registered. Kept visible as a proposition, not as an obligation (the
+anchor family of the end-to-end campaign declares anchors on entries of definitions / $defs only). -/
+def parse_id_descends_into_every_schema_field : Prop := ∀ k ∈ schemaFields, k ∈ parseIdDescends
+
+end Walk
 
 end Dcg.Props.C06
